@@ -110,6 +110,17 @@ fn gen(ctx: &GenCtx, i: u64) -> Option<Run> {
                 let mut f = public49.clone();
                 f[0] ^= 1;
                 others.push(KeySpec::RawPublic { hex: hex::encode(f) });
+                // every other single-bit neighbour of the tag byte, and a few in the x coordinate
+                for bit in 1..8 {
+                    let mut h = public49.clone();
+                    h[0] ^= 1 << bit;
+                    others.push(KeySpec::RawPublic { hex: hex::encode(h) });
+                }
+                for _ in 0..4 {
+                    let mut h = public49.clone();
+                    h[1 + r.usize(48)] ^= 1 << r.below(8);
+                    others.push(KeySpec::RawPublic { hex: hex::encode(h) });
+                }
                 let mut g = public49.clone();
                 g[48] ^= 1;
                 others.push(KeySpec::RawPublic { hex: hex::encode(g) });
